@@ -38,6 +38,15 @@ pub fn decode_case(tape: &[u32], style: u8, cache: usize, seq_raw: &[Vec<u16>], 
             pool.push(g.record());
         }
     }
+    if g.tape.chance(1, 12) {
+        // one pool value that prints as more than 4 KiB / 8 KiB (output buffers), a bare string
+        // or a record with a long member
+        let n = [4200usize, 8300, 12000][g.tape.below(3)];
+        let long = "w".repeat(n);
+        let v = if g.tape.chance(1, 2) { format!("\"{}\"", long) } else { format!("{{\"s\":\"{}\",\"n\":1}}", long) };
+        let at = g.tape.below(pool.len() + 1);
+        pool.insert(at, v);
+    }
     let seqs = seq_raw.iter().map(|s| s.iter().map(|x| pick_idx(*x, pool.len())).collect()).collect();
     Case11 { pipe, style, cache, pool, seqs, gap_seed }
 }
@@ -226,6 +235,7 @@ impl Check for C11Local {
                 .class_if(uneven, "some_value_yields_0_or_many_rows")
                 .class_if(!header.is_empty(), "header")
                 .class_if(case.seqs.iter().any(|q| q.len() > 1000), "long_sequence")
+                .class_if(case.pool.iter().any(|p| p.len() > 4096), "value_larger_than_4KiB")
                 .weight((case.pool.len() + case.seqs.len()) as u64)
                 .obs(json!({"args": args, "outs": outs.iter().take(3).map(|o| esc_trunc(o, 120)).collect::<Vec<_>>()})),
         )
